@@ -4,6 +4,7 @@ import (
 	"fmt"
 	"go/constant"
 	"go/types"
+	"sort"
 	"strings"
 
 	"golang.org/x/tools/go/ssa"
@@ -73,6 +74,8 @@ func eqHolds(rs relSet, x string, ys ...string) bool {
 // (unless the error itself is returned); a byte-count result is compared with
 // the expected length before any normal return.
 type countSpec struct {
+	expectedEv func(e ievent, name string) []string
+	geOK       bool
 	// expected(call) returns the keys the count must be proven equal to (nil: the call has no count obligation)
 	expected func(c *ssa.Call, name string) []string
 	// loopOK: the count may instead drive a write-all loop (checked by the caller's own rule)
@@ -224,27 +227,149 @@ func unixConst(p *Prog, name string) (int64, bool) {
 	return constant.Int64Val(c.Val())
 }
 
+// ipathDiscipline (A5 on abstract paths): on every normally returning path of f (helpers spliced in),
+// every system call's error is known nil or is returned, and every byte count with an expectation is proven.
+func (p *Prog) ipathDiscipline(r *Report, rule, fname string, f *ssa.Function, cs countSpec, deferOK func(name string, ip ipath) bool) []ipath {
+	ips, ok := p.ipaths(f)
+	if !ok {
+		r.Unknown(rule, fname+" paths", f.Pos(), "too many paths to enumerate")
+		return nil
+	}
+	type verdict struct {
+		bad string
+		pos ssa.Instruction
+		n   int
+	}
+	errV := map[string]*verdict{}
+	cntV := map[string]*verdict{}
+	defV := map[string]*verdict{}
+	get := func(m map[string]*verdict, k string, in ssa.Instruction) *verdict {
+		if m[k] == nil {
+			m[k] = &verdict{pos: in}
+		}
+		m[k].n++
+		return m[k]
+	}
+	for _, ip := range ips {
+		for _, e := range ip.Events {
+			if !strings.HasPrefix(e.Callee, "golang.org/x/sys/unix.") {
+				continue
+			}
+			name := strings.TrimPrefix(e.Callee, "golang.org/x/sys/unix.")
+			if e.Deferred {
+				v := get(defV, name, e.In)
+				if deferOK == nil || !deferOK(name, ip) {
+					v.bad = "the result of a deferred system call is discarded; only accepted for a close that follows an fsync on every path"
+				}
+				continue
+			}
+			var sig *types.Signature
+			if ci, ok := e.In.(ssa.CallInstruction); ok {
+				sig = ci.Common().Signature()
+			}
+			if sig == nil {
+				continue
+			}
+			res := sig.Results()
+			errKey, cntKey := "", ""
+			for i := 0; i < res.Len(); i++ {
+				k := e.Key
+				if res.Len() > 1 {
+					k = shortKey(e.Key + "#" + itoa(i))
+				}
+				if isErrorType(res.At(i).Type()) {
+					errKey = k
+				} else if b, ok := res.At(i).Type().Underlying().(*types.Basic); ok && b.Kind() == types.Int && i == 0 {
+					cntKey = k
+				}
+			}
+			if ip.Exit != "return" {
+				continue // the failure (or another refusal) surfaces as a panic
+			}
+			if errKey != "" {
+				v := get(errV, name, e.In)
+				okE := ip.Rels[eqRel(errKey, "nil")] || ip.Rels[eqRel(errKey, "nil:error")]
+				for _, rk := range ip.Ret {
+					if rk == errKey || strings.Contains(rk, errKey) {
+						okE = true // the error (or a verdict computed from it) is returned
+					}
+				}
+				if !okE && v.bad == "" {
+					v.bad = "a normal return is reachable without the error having been tested nil or returned: " + ip.Trace
+				}
+			}
+			if want := cs.expectedKeys(e, name); want != nil {
+				v := get(cntV, name, e.In)
+				if !eqHolds(ip.Rels, cntKey, want...) && v.bad == "" {
+					if !cs.geOK || !geHolds(ip.Rels, cntKey, want...) {
+						v.bad = fmt.Sprintf("a normal return is reachable without the byte count having been proven equal to %v: %s (facts %v)", want, ip.Trace, relList(ip.Rels))
+					}
+				}
+			}
+		}
+	}
+	for _, name := range sortedKeys(errV) {
+		v := errV[name]
+		r.Sites++
+		r.Check(rule, fmt.Sprintf("%s unix.%s error", fname, name), instrPos(v.pos), v.bad == "", v.bad)
+	}
+	for _, name := range sortedKeys(cntV) {
+		v := cntV[name]
+		r.Check(rule, fmt.Sprintf("%s unix.%s count", fname, name), instrPos(v.pos), v.bad == "", v.bad)
+	}
+	for _, name := range sortedKeys(defV) {
+		v := defV[name]
+		r.Check(rule, fmt.Sprintf("%s defer unix.%s result discarded", fname, name), instrPos(v.pos), v.bad == "", v.bad)
+	}
+	return ips
+}
+
+func (cs countSpec) expectedKeys(e ievent, name string) []string {
+	if cs.expectedEv == nil {
+		return nil
+	}
+	return cs.expectedEv(e, name)
+}
+
+// geHolds: some `want <= count` relation holds (for APIs that never report more than requested).
+func geHolds(rs relSet, x string, ys ...string) bool {
+	x = stripConvs(x)
+	for k := range rs {
+		i := topLevelIndex(k, " <= ")
+		if i < 0 {
+			continue
+		}
+		a, b := stripConvs(k[:i]), stripConvs(k[i+4:])
+		for _, y := range ys {
+			if a == stripConvs(y) && b == x {
+				return true
+			}
+		}
+	}
+	return false
+}
+
 func checkC11(p *Prog, r *Report) {
-	r.Rule("R11a", "result discipline: on every path through every system call of the file disk, a failure never reaches a normal return — the error result is tested (== nil holds on the path) or returned, and the byte count of pread/pwrite is proven equal to the block size / buffer length before any normal return (path enumeration, branch facts)", 9)
+	r.Rule("R11a", "result discipline: on every normally returning path through every system call of the file disk (helpers spliced in), a failure never reaches the return — the error result is known nil on the path or is returned, and the byte count of pread/pwrite is proven equal to the block size / buffer length (abstract interprocedural paths with branch facts)", 9)
 	r.Rule("R11b", "Barrier: every path that returns normally passes through fsync of the disk's own descriptor; Close closes that descriptor", 2)
-	r.Rule("R11c", "open path: every successful return of the constructor (i) opened with O_CREAT|O_RDWR and without O_TRUNC, (ii) on a regular file either resized it to numBlocks*BlockSize bytes or proved its size equal to numBlocks*BlockSize in bytes (unit discipline), (iii) stores the opened descriptor and the requested size", 4)
+	r.Rule("R11c", "open path: every successful return of the constructor (i) opened with O_CREAT|O_RDWR and without O_TRUNC, (ii) on a regular file either resized it to numBlocks*BlockSize bytes or proved its size equal to numBlocks*BlockSize in bytes (unit discipline), (iii) stores the opened descriptor and the requested size", 3)
 	r.Assume = append(r.Assume, "open/fstat/ftruncate/pread/pwrite/fsync behave as documented (ftruncate extends with zeros, preserves the prefix)", "durability on real hardware and crash recovery are not decided")
 	dc := newDiskCtx(p, r, "R11a")
 	if dc == nil {
 		return
 	}
 	bs := fmt.Sprint(dc.blockSize)
-	cs := countSpec{expected: func(c *ssa.Call, name string) []string {
-		if name == "Pread" || name == "Pwrite" {
-			return []string{bs, "len(" + sk(c.Call.Args[1]) + ")"}
+	cs := countSpec{expectedEv: func(e ievent, name string) []string {
+		if (name == "Pread" || name == "Pwrite") && len(e.Args) == 3 {
+			return []string{bs, "len(" + e.Args[1] + ")"}
 		}
 		return nil
 	}}
 	nFile := 0
 	for _, im := range dc.impls {
+		_, region := dc.computeRoles(im)
 		uses := false
-		for _, mn := range sortedKeys(im.Methods) {
-			f := im.Methods[mn]
+		for _, f := range region {
 			p.instrs(f, func(b *ssa.BasicBlock, i int, in ssa.Instruction) {
 				if _, _, ok := unixCall(in); ok {
 					uses = true
@@ -255,21 +380,21 @@ func checkC11(p *Prog, r *Report) {
 			continue
 		}
 		nFile++
-		fdKey := ""
+		fdField := ""
+		paths := map[string][]ipath{}
 		for _, mn := range sortedKeys(im.Methods) {
 			f := im.Methods[mn]
 			r.Func(FuncName(f))
-			p.syscallDiscipline(r, "R11a", im.Name+"."+mn, f, cs, nil)
+			paths[mn] = p.ipathDiscipline(r, "R11a", im.Name+"."+mn, f, cs, nil)
 		}
-		// descriptor field: the int field passed as fd to pread
-		if f := im.Methods["ReadTo"]; f != nil {
-			p.instrs(f, func(b *ssa.BasicBlock, i int, in ssa.Instruction) {
-				if c, name, ok := unixCall(in); ok && name == "Pread" {
-					fdKey = sk(c.Call.Args[0])
+		for _, ip := range paths["ReadTo"] {
+			for _, e := range ip.eventsOf("golang.org/x/sys/unix.Pread") {
+				if i := strings.LastIndex(e.Args[0], "."); i >= 0 {
+					fdField = e.Args[0][i:]
 				}
-			})
+			}
 		}
-		if fdKey == "" {
+		if fdField == "" {
 			r.Unknown("R11b", im.Name+" descriptor", im.Named.Obj().Pos(), "cannot identify the descriptor field (first argument of pread in ReadTo)")
 			continue
 		}
@@ -279,49 +404,55 @@ func checkC11(p *Prog, r *Report) {
 				r.Anchor("R11b", im.Name+"."+spec.method)
 				continue
 			}
-			paths, _ := p.enumPaths(f, 1, 5000)
 			bad := ""
-			for _, pt := range paths {
-				if _, isRet := pt.endsInReturn(); !isRet {
+			for _, ip := range paths[spec.method] {
+				if ip.Exit != "return" {
 					continue
 				}
 				found := false
-				for _, b := range pt.Blocks {
-					for _, in := range b.Instrs {
-						if c, name, ok := unixCall(in); ok && name == spec.sys && sk(c.Call.Args[0]) == fdKey {
-							found = true
-						}
+				for _, e := range ip.eventsOf("golang.org/x/sys/unix." + spec.sys) {
+					if !e.Deferred && len(e.Args) > 0 && strings.HasSuffix(e.Args[0], fdField) {
+						found = true
 					}
 				}
 				if !found {
-					bad = "a normal return is reachable without unix." + spec.sys + "(" + fdKey + "): path " + pt.String()
-					break
+					bad = "a normal return is reachable without unix." + spec.sys + "(…" + fdField + "): " + ip.Trace
 				}
 			}
-			r.Check("R11b", fmt.Sprintf("%s.%s passes through %s", im.Name, spec.method, spec.sys), f.Pos(), bad == "", bad)
+			r.Check("R11b", fmt.Sprintf("%s.%s passes through %s", im.Name, spec.method, spec.sys), f.Pos(), bad == "" && len(paths[spec.method]) > 0, bad)
 		}
 	}
 	if nFile == 0 {
 		r.Unknown("R11a", "file-backed implementation", 0, "no implementation of disk.Disk calls into golang.org/x/sys/unix")
 	}
-	// constructors that open a file
-	for f := range dc.ctors {
+	for _, f := range sortedFuncs(dc.ctors) {
 		opens := false
-		p.instrs(f, func(b *ssa.BasicBlock, i int, in ssa.Instruction) {
-			if _, name, ok := unixCall(in); ok && (name == "Open" || name == "Openat") {
-				opens = true
-			}
-		})
+		for _, g := range p.region([]*ssa.Function{f}) {
+			p.instrs(g, func(b *ssa.BasicBlock, i int, in ssa.Instruction) {
+				if _, name, ok := unixCall(in); ok && (name == "Open" || name == "Openat") {
+					opens = true
+				}
+			})
+		}
 		if !opens {
 			continue
 		}
 		r.Func(FuncName(f))
-		p.syscallDiscipline(r, "R11a", f.Name(), f, cs, nil)
-		dc.ruleOpenPath(r, f)
+		ips := p.ipathDiscipline(r, "R11a", f.Name(), f, cs, nil)
+		dc.ruleOpenPath2(r, f, ips)
 	}
 }
 
-func (dc *diskCtx) ruleOpenPath(r *Report, f *ssa.Function) {
+func sortedFuncs(m map[*ssa.Function]bool) []*ssa.Function {
+	var out []*ssa.Function
+	for f := range m {
+		out = append(out, f)
+	}
+	sort.Slice(out, func(i, j int) bool { return out[i].String() < out[j].String() })
+	return out
+}
+
+func (dc *diskCtx) ruleOpenPath2(r *Report, f *ssa.Function, ips []ipath) {
 	p := dc.p
 	bs := fmt.Sprint(dc.blockSize)
 	var nb *ssa.Parameter
@@ -335,67 +466,51 @@ func (dc *diskCtx) ruleOpenPath(r *Report, f *ssa.Function) {
 		return
 	}
 	want1, want2 := "("+nb.Name()+" * "+bs+")", "("+bs+" * "+nb.Name()+")"
-	var open *ssa.Call
-	p.instrs(f, func(b *ssa.BasicBlock, i int, in ssa.Instruction) {
-		if c, name, ok := unixCall(in); ok && name == "Open" {
-			open = c
+	errIdx := -1
+	for i := 0; i < f.Signature.Results().Len(); i++ {
+		if isErrorType(f.Signature.Results().At(i).Type()) {
+			errIdx = i
 		}
-	})
-	if open == nil {
-		r.Unknown("R11c", f.Name()+" open", f.Pos(), "no unix.Open call")
-		return
 	}
-	// (i) flags
-	flags, okc := constInt(open.Call.Args[1])
 	oc, _ := unixConst(p, "O_CREAT")
 	orw, _ := unixConst(p, "O_RDWR")
 	otr, _ := unixConst(p, "O_TRUNC")
 	acc, _ := unixConst(p, "O_ACCMODE")
-	r.Check("R11c", f.Name()+" open flags", instrPos(open), okc && flags&oc != 0 && flags&acc == orw && flags&otr == 0,
-		fmt.Sprintf("flags=%#x: need O_CREAT and O_RDWR, and must not contain O_TRUNC (would erase the image on reopen)", flags))
-	fdKey := sk(open) + "#0"
-	// (ii) per successful path
-	paths, ok := p.enumPaths(f, 1, 20000)
-	if !ok {
-		r.Unknown("R11c", f.Name()+" paths", f.Pos(), "too many paths")
-		return
-	}
+	reg, _ := unixConst(p, "S_IFREG")
 	nSucc := 0
-	bad := ""
-	for _, pt := range paths {
-		ret, isRet := pt.endsInReturn()
-		if !isRet {
-			continue
-		}
-		succ := false
-		for _, rv := range ret.Results {
-			if isErrorType(rv.Type()) {
-				if c, ok := rv.(*ssa.Const); ok && c.Value == nil {
-					succ = true
-				}
-			}
-		}
-		if !succ {
+	badFlags, badSize, badFields := "", "", ""
+	for _, ip := range ips {
+		if ip.Exit != "return" || errIdx < 0 || errIdx >= len(ip.Ret) || ip.Ret[errIdx] != "nil" {
 			continue
 		}
 		nSucc++
-		rs := pt.rels()
-		trunc := false
-		for _, b := range pt.Blocks {
-			for _, in := range b.Instrs {
-				if c, name, ok := unixCall(in); ok && name == "Ftruncate" {
-					lk := stripConvs(sk(c.Call.Args[1]))
-					if sk(c.Call.Args[0]) == fdKey && (lk == want1 || lk == want2) {
-						trunc = true
-					} else {
-						bad = fmt.Sprintf("ftruncate(%s, %s): must resize the opened descriptor to %s bytes", sk(c.Call.Args[0]), sk(c.Call.Args[1]), want1)
-					}
-				}
+		opens := ip.eventsOf("golang.org/x/sys/unix.Open")
+		if len(opens) != 1 {
+			badFlags = fmt.Sprintf("%d open calls on a successful path", len(opens))
+			continue
+		}
+		op := opens[0]
+		var flags int64 = -1
+		if ci, ok := op.In.(ssa.CallInstruction); ok {
+			if fl, okc := foldInt(ci.Common().Args[1]); okc {
+				flags = fl
 			}
 		}
-		sizeEq := false
-		notRegular := false
-		for k := range rs {
+		if flags < 0 || flags&oc == 0 || flags&acc != orw || flags&otr != 0 {
+			badFlags = fmt.Sprintf("flags=%#x: need O_CREAT and O_RDWR, and must not contain O_TRUNC (would erase the image on reopen)", flags)
+		}
+		fdKey := shortKey(op.Key + "#0")
+		trunc := false
+		for _, e := range ip.eventsOf("golang.org/x/sys/unix.Ftruncate") {
+			lk := stripConvs(e.Args[1])
+			if e.Args[0] == fdKey && (lk == want1 || lk == want2) {
+				trunc = true
+			} else {
+				badSize = fmt.Sprintf("ftruncate(%s, %s): must resize the opened descriptor to %s bytes", e.Args[0], e.Args[1], want1)
+			}
+		}
+		sizeEq, notRegular := false, false
+		for k := range ip.Rels {
 			if i := topLevelIndex(k, " == "); i >= 0 {
 				a, b := stripConvs(k[:i]), stripConvs(k[i+4:])
 				for _, pr := range [][2]string{{a, b}, {b, a}} {
@@ -409,7 +524,6 @@ func (dc *diskCtx) ruleOpenPath(r *Report, f *ssa.Function) {
 			}
 			if i := topLevelIndex(k, " != "); i >= 0 {
 				a, b := stripConvs(k[:i]), stripConvs(k[i+4:])
-				reg, _ := unixConst(p, "S_IFREG")
 				for _, pr := range [][2]string{{a, b}, {b, a}} {
 					if strings.Contains(pr[0], ".Mode & ") && pr[1] == fmt.Sprint(reg) {
 						notRegular = true
@@ -417,36 +531,47 @@ func (dc *diskCtx) ruleOpenPath(r *Report, f *ssa.Function) {
 				}
 			}
 		}
-		if !(trunc || sizeEq || notRegular) && bad == "" {
-			bad = fmt.Sprintf("successful return on path %s without resizing, for a regular file whose size was not proven equal to %s bytes; facts: %v", pt.String(), want1, relList(rs))
+		if !(trunc || sizeEq || notRegular) && badSize == "" {
+			badSize = fmt.Sprintf("successful return on path %s without resizing, for a regular file whose size was not proven equal to %s bytes; facts: %v", ip.Trace, want1, relList(ip.Rels))
+		}
+		// (iii) the returned disk: descriptor and size fields
+		if ip.RetIn != nil {
+			okFd, okSz := false, false
+			for _, rv := range ip.RetIn.Results {
+				if dc.implOf(rv.Type()) == nil {
+					continue
+				}
+				for _, v := range flowOperands(rv) {
+					a, ok := v.(*ssa.Alloc)
+					if !ok {
+						continue
+					}
+					for _, rf := range refs(a) {
+						fa, ok := rf.(*ssa.FieldAddr)
+						if !ok {
+							continue
+						}
+						for _, r2 := range refs(fa) {
+							st, ok := r2.(*ssa.Store)
+							if !ok {
+								continue
+							}
+							if sk(st.Val) == fdKey || replaceAllKeys(sk(st.Val), nil) == fdKey {
+								okFd = true
+							}
+							if st.Val == ssa.Value(nb) {
+								okSz = true
+							}
+						}
+					}
+				}
+			}
+			if !okFd || !okSz {
+				badFields = fmt.Sprintf("the returned disk does not carry the opened descriptor (%v) and the requested number of blocks (%v)", okFd, okSz)
+			}
 		}
 	}
-	r.Check("R11c", f.Name()+" size established", f.Pos(), bad == "" && nSucc > 0, bad)
-	// (iii) fields of the returned disk
-	nStore := 0
-	p.instrs(f, func(b *ssa.BasicBlock, i int, in ssa.Instruction) {
-		st, ok := in.(*ssa.Store)
-		if !ok {
-			return
-		}
-		fa, ok := st.Addr.(*ssa.FieldAddr)
-		if !ok || dc.implOf(fa.X.Type()) == nil {
-			return
-		}
-		_, fld, _ := fieldOf(fa)
-		nStore++
-		bt, isBasic := st.Val.Type().Underlying().(*types.Basic)
-		if !isBasic {
-			return
-		}
-		switch bt.Kind() {
-		case types.Int:
-			r.Check("R11c", f.Name()+" stores descriptor in "+fld, instrPos(in), sk(st.Val) == fdKey, "descriptor field is set to "+sk(st.Val)+", must be the opened descriptor")
-		case types.Uint64:
-			r.Check("R11c", f.Name()+" stores size in "+fld, instrPos(in), st.Val == ssa.Value(nb), "size field is set to "+sk(st.Val)+", must be the requested number of blocks")
-		}
-	})
-	if nStore == 0 {
-		r.Unknown("R11c", f.Name()+" result fields", f.Pos(), "constructor does not build its result from a composite literal")
-	}
+	r.Check("R11c", f.Name()+" open flags", f.Pos(), badFlags == "" && nSucc > 0, badFlags)
+	r.Check("R11c", f.Name()+" size established", f.Pos(), badSize == "" && nSucc > 0, badSize)
+	r.Check("R11c", f.Name()+" result fields", f.Pos(), badFields == "" && nSucc > 0, badFields)
 }
